@@ -67,6 +67,10 @@ CHECKS = {
             "§6 C11",
             "unbounded termination proofs (progress / pigeonhole) + fault-injection correspondence under a watchdog and an allocation bound",
             "PARTIAL: real CPU time and memory of CPython, cstruct and zlib are measured, not proved. Not yet a theorem: progress of QCOW2 _yield_runs (the model reports nonterm on a zero-length run and the harness flags any nonterm from the driver), Hyper-V / envelope loops (see C16/C17). The inflate bound is a parameter of the models (max_length = allocation unit at every call site) and is exercised by the bomb cases."),
+    "C13": ("Lean 4 wide-offset theorems over the extracted masks / layouts: qcow2_offset_mask_wide and qcow2_l1_mask_wide (every 512-aligned host offset < 2^56 survives the L2 / L1 masks under any flag bits; bit-extensional proof), qcow2_compressed_descriptor_wide (every cluster size 9..21: descriptor decodes to its host offset < 2^x and sector count), sesparse_entry_wide (every grain number < 2^60 recombines from the split hi/lo fields), vhdx_file_offset_wide (44-bit MiB offsets through the extracted bit-field), vhd_bat_entry_unsigned (32-bit unsigned sectors, format string extracted); sparse counting backing files with tables / blocks / clusters / grains beyond 2^32 bytes, 2^32 sectors and up to 2^55, virtual sizes of tens of TiB, few vs many allocated units: content real code vs Lean model vs construction truth, and bytes read at open / per request against a bound that depends on mapping metadata and request only",
+            "§6 C13",
+            "unbounded proofs of the wide-offset arithmetic + extraction + differential correspondence with I/O accounting on sparse multi-terabyte files",
+            "PARTIAL: the I/O bound (no scan, no dependence on allocated data) is measured on the real code against a bound computed from the generator's geometry, not yet proved on an instrumented model (planned: footprint theorems 'the result depends only on the bytes of the tables and units the request maps to'). Read-ahead inside Python's own file objects is outside the model."),
 }
 
 NOT_YET = {
